@@ -167,6 +167,17 @@ func handlerFunction(p *Prog, h ssa.Value) (*ssa.Function, []e2src, string) {
 	h = strip(h)
 	if call, ok := h.(*ssa.Call); ok {
 		if callee := call.Call.StaticCallee(); callee != nil {
+			// a factory that returns the method value of an object it has just filled in (op := &readOp{...}; return
+			// op.onReadable): the bound method, with the callback fields it reads, is the handler
+			for _, r := range returnsOf(callee) {
+				if len(r.Results) == 1 {
+					if mc, ok := strip(r.Results[0]).(*ssa.MakeClosure); ok {
+						if bf, ok := mc.Fn.(*ssa.Function); ok && strings.Contains(bf.Synthetic, "bound method wrapper") {
+							return handlerFunction(p, mc)
+						}
+					}
+				}
+			}
 			for j := range call.Call.Args {
 				if cf, _, ok := factoryClosure(callee, j); ok {
 					return closureSources(cf)
@@ -1127,6 +1138,40 @@ func checkArming(c *Ctx, e *e2, handler *ssa.Function, field *types.Var) {
 						// ... by every constructor: a function that allocates the owner stores it into this field (directly, or
 						// through the composite literal of the reactor), so the handler never follows a nil back-pointer
 						nCtor := 0
+						// a per-operation object (allocated on its own, not a field of the owner) is wired where it is built
+						ownerHolds := false
+						if ost, ok := nt.Underlying().(*types.Struct); ok {
+							for k := 0; k < ost.NumFields(); k++ {
+								if types.Identical(ost.Field(k).Type(), tn.Type()) {
+									ownerHolds = true
+								}
+							}
+						}
+						if !ownerHolds {
+							for _, fn := range p.Funcs {
+								eachInstr(fn, func(in ssa.Instruction) {
+									a, ok := in.(*ssa.Alloc)
+									if !ok {
+										return
+									}
+									if apt, ok := a.Type().(*types.Pointer); !ok || !types.Identical(apt.Elem(), tn.Type()) {
+										return
+									}
+									nCtor++
+									wired := false
+									for _, st := range storesTo(fn, g) {
+										if fa, ok := st.Instr.(*ssa.Store).Addr.(*ssa.FieldAddr); ok && fa.X == ssa.Value(a) && !isNil(st.Val) {
+											wired = true
+										}
+									}
+									c.check(wired, fn, "wires "+objName(g), a.Pos(), "the operation object is built with its back-pointer", fnName(fn)+" builds a "+tn.Name()+" without setting "+objName(g)+": its handler runs on a nil back-pointer")
+								})
+							}
+							if nCtor == 0 {
+								c.bad(handler, "wires "+objName(g), handler.Pos(), "no function allocates %s (anchor moved)", tn.Name())
+							}
+							continue
+						}
 						for _, fn := range p.Funcs {
 							var owner *ssa.Alloc
 							eachInstr(fn, func(in ssa.Instruction) {
@@ -1227,6 +1272,18 @@ func checkArming(c *Ctx, e *e2, handler *ssa.Function, field *types.Var) {
 		for i, prm := range fn.Params {
 			if isCallbackType(prm.Type()) {
 				if _, isSig := prm.Type().Underlying().(*types.Signature); isSig {
+					// an installer that fills in a fresh operation object with its own callback parameter before it
+					// installs the handler (handler := x.getReadHandler(..., cb)) has armed it itself
+					selfArmed := false
+					for _, call := range callsTo(fn, e.slotSet) {
+						if armsBefore(fn, i, call.(ssa.Instruction)) && siblingsArmed(fn, call.(ssa.Instruction)) == "" {
+							selfArmed = true
+						}
+					}
+					if selfArmed {
+						c.ok(fn, "arms "+field.Name(), fn.Pos(), "the installer arms a fresh operation object with its own callback and operands")
+						continue
+					}
 					needs[fn] = i
 				}
 			}
